@@ -1,7 +1,9 @@
 package mon
 
 import (
+	"fmt"
 	"reflect"
+	"strings"
 
 	"github.com/vektah/gqlparser/v2/ast"
 
@@ -14,6 +16,7 @@ var (
 	astValuePtr    = reflect.TypeOf((*ast.Value)(nil))
 	astPositionPtr = reflect.TypeOf((*ast.Position)(nil))
 	astSourcePtr   = reflect.TypeOf((*ast.Source)(nil))
+	astCommentsPtr = reflect.TypeOf((*ast.CommentGroup)(nil))
 )
 
 // walkAST visits every *ast.Type and *ast.Value reachable from root through exported fields (each pointer once; positions and
@@ -84,4 +87,89 @@ func checkTypeTexts(x *core.Ctx, root interface{}) {
 			x.Count("type_texts_compared_three_list_levels")
 		}
 	}, nil)
+}
+
+// jsonDeepDiff walks two values in parallel through everything encoding/json would carry (exported fields not tagged "-";
+// nil and empty slices and maps alike; positions skipped: they point into a Source that is not part of the encoding) and
+// returns the path and a description of the first difference ("" when there is none). Pointer pairs are visited once.
+func jsonDeepDiff(a, b interface{}) (string, string) {
+	type pair struct{ x, y uintptr }
+	seen := map[pair]bool{}
+	var rec func(x, y reflect.Value, path string, depth int) (string, string)
+	rec = func(x, y reflect.Value, path string, depth int) (string, string) {
+		if depth > 200000 {
+			return "", ""
+		}
+		if x.IsValid() != y.IsValid() {
+			return path, "present on one side only"
+		}
+		if !x.IsValid() {
+			return "", ""
+		}
+		if x.Type() != y.Type() {
+			return path, fmt.Sprintf("%s before encoding, %s after decoding", x.Type(), y.Type())
+		}
+		switch x.Kind() {
+		case reflect.Ptr:
+			if x.Type() == astPositionPtr || x.Type() == astSourcePtr || x.Type() == astCommentsPtr {
+				// positions point into a Source that is not part of the encoding; comments are not among the things the
+				// round trip promises (the decoders of operations, fragments and fields do not read them)
+				return "", ""
+			}
+			if x.IsNil() != y.IsNil() {
+				return path, fmt.Sprintf("nil before encoding: %v, nil after decoding: %v", x.IsNil(), y.IsNil())
+			}
+			if x.IsNil() {
+				return "", ""
+			}
+			p := pair{x.Pointer(), y.Pointer()}
+			if seen[p] {
+				return "", ""
+			}
+			seen[p] = true
+			return rec(x.Elem(), y.Elem(), path, depth+1)
+		case reflect.Interface:
+			if x.IsNil() != y.IsNil() {
+				return path, "nil on one side only"
+			}
+			if x.IsNil() {
+				return "", ""
+			}
+			return rec(x.Elem(), y.Elem(), path, depth+1)
+		case reflect.Struct:
+			for i := 0; i < x.NumField(); i++ {
+				f := x.Type().Field(i)
+				if f.PkgPath != "" || strings.HasPrefix(f.Tag.Get("json"), "-") {
+					continue
+				}
+				if w, d := rec(x.Field(i), y.Field(i), path+"."+f.Name, depth+1); w != "" {
+					return w, d
+				}
+			}
+		case reflect.Slice, reflect.Array:
+			if x.Len() != y.Len() {
+				return path, fmt.Sprintf("%d items before encoding, %d after decoding", x.Len(), y.Len())
+			}
+			for i := 0; i < x.Len(); i++ {
+				if w, d := rec(x.Index(i), y.Index(i), path+"[]", depth+1); w != "" {
+					return w, d
+				}
+			}
+		case reflect.Map:
+			if x.Len() != y.Len() {
+				return path, fmt.Sprintf("%d keys before encoding, %d after decoding", x.Len(), y.Len())
+			}
+			for _, k := range x.MapKeys() {
+				if w, d := rec(x.MapIndex(k), y.MapIndex(k), path+"{}", depth+1); w != "" {
+					return w, d
+				}
+			}
+		default:
+			if x.CanInterface() && y.CanInterface() && !reflect.DeepEqual(x.Interface(), y.Interface()) {
+				return path, fmt.Sprintf("%v before encoding, %v after decoding", x.Interface(), y.Interface())
+			}
+		}
+		return "", ""
+	}
+	return rec(reflect.ValueOf(a), reflect.ValueOf(b), "doc", 0)
 }
